@@ -99,7 +99,7 @@ class TDevice(Device):
     ''' Map `r` consumption vector to its effective heating or cooling effect, given heat transfer
     (t_base), thermal loss (sustainment) and efficiency of device (efficiency).
     '''
-    return self.t_base + soc(r.reshape(len(self)), s=self.sustainment, e=self.efficiency)
+    return self.t_base + self.efficiency*soc(r.reshape(len(self)), s=self.sustainment, e=1)
 
   @property
   def params(self):
